@@ -122,6 +122,7 @@ def gen_history(rng, length):
         {"op": "recheck", "meta": f"e{counter}a.torrent", "content": "p", "reuse": True},
         {"op": "rebuild", "metas": [f"e{counter}a.torrent"], "contents": ["p"], "dest": f"edest{counter}a"},
         {"op": "fs", "kind": "rewrite-same-size", "rel": sorted(present)[0], "seed": counter + 77},
+        {"op": "fs", "kind": "add", "rel": f"p/late/arrival{counter}", "data": f"r{counter}.20000"},
         {"op": "recheck", "meta": f"e{counter}a.torrent", "content": "p", "reuse": True},
         {"op": "create", "kind": last[0], "path": "p", "out": f"e{counter}b.torrent", "pl": pl2,
          "reuse": f"E{counter}"},
